@@ -2,7 +2,7 @@
 import json
 import os
 
-from .. import core, annot, translate_tables
+from .. import core, annot, translate_tables, translate_masscore
 from . import c02_common as cm
 from . import c02 as c02h
 
@@ -11,7 +11,8 @@ DRV = 'drv_c03'
 
 REGISTRY = {
     'id': 'C03',
-    'text': 'Lean (24 theorems): the two encodings of every +1 ion agree (ion_tables_agree); chem_mass is linear over addition / scaling / '
+    'text': 'Mechanical tie for the arithmetic core: harness/translate_masscore.py reads the CURRENT source with ast and emits Generated/MassCorePy.lean (adjust_mass, adjust_mz, _parse_adduct_mass from mass_calc.py; chem_mass (dict argument) with its loop body from chem_util.py; merge_dicts with its two loops from util.py); Props/C02Gen (6 theorems) proves each equal to the hand model (GenMass.adjust_mass = Mass.adjustMass, adjust_mz = Mass.adjustMz, _parse_adduct_mass = Mass.adductMassP, chem_mass_loop1 = Chem.chemStep, chem_mass = Chem.chemMass, merge_dicts = Chem.merge for a first dict with distinct keys), so the theorems below hold for the definitions read off the source; hand-modelled only (tied by correspondence): mass, mz, comp_mass and the label path, _parse_charge_adducts_mass (isinstance dispatch), parse_ion_elements, parse_static_mods, the text branch of chem_mass; a function outside the translator subset is reported as untranslated and falls back to correspondence. '
+            'Lean (24 theorems): the two encodings of every +1 ion agree (ion_tables_agree); chem_mass is linear over addition / scaling / '
             'merge_dicts / zero-dropping; averagine estimation is mass-exact over Q (estimate_comp_mass); the central identity '
             'mass() = chem_mass(comp_mass().composition) + delta + loss + k*eps + row gaps EXACTLY over Q - mass_eq_compMass_partial '
             '(no rules), mass_eq_compMass_static / _static_concrete (global rules incl. N-Term, C-Term, multi-residue targets, read by the '
@@ -25,7 +26,7 @@ REGISTRY = {
             '(psimod_mono_excluded); row_gap_mono / row_gap_avg turn a checked row into a bound on the gap term of the identity. '
             'Models are tied to /repo by differential correspondence (exact compositions, masses at 1e-7; every line of the modelled '
             'functions executed in the quick tier) and the identity is searched on the implementation at 1e-4 Da / 1e-3 Da + 5 ppm',
-    'note': 'trusted: Lean kernel; translators; per-value modification resolution is a parameter of the model (C10); the vocabulary tables '
+    'note': 'trusted: Lean kernel; the Python subset reader harness/translate_masscore.py (its output Generated/MassCorePy.lean is committed and readable next to the source; round(x, p) is read as round-half-even on the exact rational, floats as exact rationals); translators; per-value modification resolution is a parameter of the model (C10); the vocabulary tables '
             'and the formula reader are the C10 / C15 work packages\' generated modules and model. Correspondence + oracle only: '
             'use_isotope_on_mods / isotope substitution inside the identity, adduct lists together with global rules',
     'technique': 'Lean 4 proof about executable model + generated tables checked by kernel evaluation + differential correspondence '
@@ -157,7 +158,17 @@ def run(chk):
     # (translator of the C10 work package, read-only use)
     from .. import translate_vocab as TV
     TV.translate_into(chk)
-    chk.lean_build(['PeptVerif.Props.C03'], DRV)
+    # the arithmetic core both calculators share (adjust_mass, chem_mass, merge_dicts, ...) read mechanically from the source
+    gen_done, gen_unt = translate_masscore.translate(chk)
+    chk.lean_build(['PeptVerif.Props.C03', 'PeptVerif.Props.C02Gen'], DRV)
+    chk.trusted += [
+        'harness/translate_masscore.py: the reading of the Python subset (None defaults, = += -=, d[k] = v, if/elif/else on == != in-tuple '
+        'in-TABLE is-True is-None and Python truthiness, or, + - * /, conditional expressions, TABLE[key] as KeyError, round -> '
+        'round-half-even on the exact rational, x[0].isdigit(), d.get(k, 0), for k, v in d.items() with continue, dict comprehension '
+        'filter, return, raise) into the combinators of the hand model; translated on this run: %s; hand-modelled only: '
+        '_parse_charge_adducts_mass (isinstance dispatch), parse_ion_elements, mass, mz, comp_mass and the label path%s'
+        % (', '.join(gen_done) or 'none', ''.join(', ' + k for k in gen_unt)),
+    ]
     chk.trusted += [
         'modelled: comp_mass, comp, _pop_delta_mass_mods, _sequence_comp, mod_comp (multiplier), condense_static_mods, '
         'apply_isotope_mods_to_composition, parse_isotope_mods, _parse_charge_adducts_comp, _parse_adduct_comp, estimate_comp, mass',
